@@ -227,7 +227,8 @@ TEXTS["C16"] = {
             "source and, if recorded for execution, a destination that exists, is available and does not block the source (C16_accepted_request_is_gated). Life cycles: the state machines of roles (role.go) and of appchains, services, rules "
             "and nodes (bitxhub-core managers pinned by go.mod) and the available-status sets are regenerated on every run (lean/Bxh/Gen/Lifecycle.lean); kernel-checked table theorems, lifted to the step function for every event string: "
             "`forbidden` has no exit for appchains, services, roles, nodes (C16_forbidden_absorbing), rules are only cleared to `unavailable` (C16_rule_forbidden_only_cleared), an approved logout ends in forbidden and forbidden / frozen / "
-            "pause / unavailable are never available statuses (C16_logout_approved_is_forbidden), an approved freeze and the cascade `pause` leave the available set (C16_freeze_makes_unavailable). On the real node requests between 6 services (and services registered during the history) "
+            "pause / unavailable are never available statuses (C16_logout_approved_is_forbidden), an approved freeze and the cascade `pause` leave the available set (C16_freeze_makes_unavailable), a rejection never makes an object usable that was not usable when the operation was proposed "
+            "(C16_reject_never_makes_available: every reject transition returns to the remembered status, ends outside the available set, or starts inside it). On the real node requests between 6 services (and services registered during the history) "
             "are interleaved with real governance operations (also left open and concluded later, and overlapping service / appchain proposals) and restarts; a monitor applies the gating rule with the statuses read back before each request, checks every observed status change against the regenerated state machines "
             "(paths of at most 3 transitions per block), that logged-out objects stay forbidden, and that a frozen / logged-out appchain has no usable service. One defect repaired (fix: a rejected logout of a frozen appchain unpaused its services).",
     "note": TB + " PARTIAL: the managers' bodies (bitxhub-core) are not modelled: that every status change goes through the state machine is checked on observed traces only; the exec model is compared until the first successful governance operation of a history; nodes, rules and dapps get no traffic.",
